@@ -35,6 +35,16 @@ CLAIMS = {
                 'are uninterpreted; base_fee over-approximated; A-HASH/A-CODEC/A-FRESH.',
         'technique': 'bounded symbolic execution of rustc MIR with state joining + z3/cvc5 obligations against a reference map model',
     },
+    'C04': {
+        'text': 'Symbolic execution of the MIR of check_tx_validity and validate_tx_scripts for a transaction with two inputs '
+                'and two covenants: accepted => for EACH input some carried script hashes to that coin\'s covenant hash, '
+                'decodes, and evaluates truthy on (this transaction, that coin\'s own environment: its id, data, height, '
+                'its position among the inputs, the previous header); a missing script is NonexistentScript.',
+        'design_ref': 'DESIGN.md §8 C04',
+        'note': COMMON_NOTE + ' Covenant decode/execute are uninterpreted functions of (bytes) / (bytes, tx, env): the '
+                'interpreter is C10-C12; the signature covenants are not re-derived here.',
+        'technique': 'bounded symbolic execution of rustc MIR + z3 obligations over uninterpreted covenant semantics',
+    },
     'C05': {
         'text': 'Symbolic execution of the MIR of melstructs Transaction::{base_fee,weight}, the fee segment of '
                 'create_next_state and collect_proposer_action_fee: minimum fee equals ((len + sum of covenant weights + '
